@@ -459,7 +459,7 @@ func (ex *Exec) asTerm(st *State, v Val, t types.Type) *Term {
 			return ex.sliceToBytes(st, x)
 		}
 		arr := ex.shiftedArr(st, x)
-		return MkSl(arr.Sort.Elem, arr, x.Len)
+		return MkSlNil(arr.Sort.Elem, arr, x.Len, x.IsNil())
 	case *ByteSlV:
 		return ex.content(st, x.Obj).(*Term)
 	case *MapV:
@@ -569,7 +569,7 @@ func (ex *Exec) asSlice(st *State, v Val, t types.Type) *SliceV {
 		if isSliceSort(x.Sort) {
 			et := t.Underlying().(*types.Slice).Elem()
 			o := st.NewObj("slicebacking", nil, SlArr(x))
-			return &SliceV{Obj: o, Off: IntLit(0), Len: SlLen(x), Elem: et}
+			return &SliceV{Obj: o, Off: IntLit(0), Len: SlLen(x), Elem: et, Nil: SlIsNil(x)}
 		}
 	}
 	panic(fmt.Sprintf("asSlice: %s", describeVal(v)))
@@ -734,6 +734,7 @@ func (ex *Exec) typeInvariant(st *State, v *Term, t types.Type, depth int) {
 	case *types.Slice:
 		if isSliceSort(v.Sort) {
 			st.Assume(Ge(SlLen(v), IntLit(0)))
+			st.Assume(Implies(SlIsNil(v), Eq(SlLen(v), IntLit(0))))
 			// element invariants (integers) via quantifier
 			if _, _, ok := intRange(u.Elem()); ok {
 				i := BVar("i!ti", SInt)
@@ -1107,7 +1108,7 @@ func (ex *Exec) isNilVal(st *State, v Val, t types.Type) *Term {
 		case isOptSort(x.Sort):
 			return Not(OptIsSome(x))
 		case isSliceSort(x.Sort):
-			return Eq(SlLen(x), IntLit(0))
+			return SlIsNil(x)
 		case isMapSort(x.Sort):
 			DeclareUF("mapnil_"+sortIdent(x.Sort), []*Sort{x.Sort}, SBool)
 			return App("mapnil_"+sortIdent(x.Sort), x)
@@ -1116,7 +1117,7 @@ func (ex *Exec) isNilVal(st *State, v Val, t types.Type) *Term {
 	case *PtrV, *FuncV, *MapV, *ByteSlV, *CtxV, *StoreV, *IterV, *OpaqueV:
 		return False
 	case *SliceV:
-		return Eq(x.Len, IntLit(0))
+		return x.IsNil()
 	case *IfaceV:
 		return False
 	case nil:
@@ -1244,7 +1245,7 @@ func (ex *Exec) binop(st *State, op token.Token, a, b Val, xt, rt types.Type, po
 }
 
 func isZeroSlice(t *Term) bool {
-	return t.Op == "cons" && len(t.Args) == 2 && t.Args[1].Op == "int" && t.Args[1].Int.Sign() == 0 && t.Args[0].Op == "constarr"
+	return t.Op == "cons" && len(t.Args) == 3 && t.Args[1].Op == "int" && t.Args[1].Int.Sign() == 0 && t.Args[0].Op == "constarr" && t.Args[2] == True
 }
 
 func (ex *Exec) eqMixed(st *State, ev Val, t *Term, typ types.Type) *Term {
@@ -1334,7 +1335,7 @@ func (ex *Exec) sliceOp(fr *Frame, x *ssa.Slice, st *State) Val {
 			hi = s.Len
 		}
 		ex.nopanic(st, "slice", And(Le(IntLit(0), lo), Le(lo, hi), Le(hi, s.Len)), x.Pos())
-		return &SliceV{Obj: s.Obj, Off: Add(s.Off, lo), Len: Sub(hi, lo), Elem: s.Elem}
+		return &SliceV{Obj: s.Obj, Off: Add(s.Off, lo), Len: Sub(hi, lo), Elem: s.Elem, Nil: s.Nil}
 	}
 	panic("sliceOp")
 }
@@ -1968,7 +1969,9 @@ func (ex *Exec) havocLoop(fr *Frame, lp *Loop, st *State) {
 			o := st.NewObj("hvbacking", nil, Fresh("hvarr_"+al.Comment, arr.Sort))
 			n := Fresh("hvlen_"+al.Comment, SInt)
 			st.Assume(Ge(n, IntLit(0)))
-			st.heap[p.Obj.id] = &SliceV{Obj: o, Off: IntLit(0), Len: n, Elem: c.Elem}
+			nl := Fresh("hvnil_"+al.Comment, SBool)
+			st.Assume(Implies(nl, Eq(n, IntLit(0))))
+			st.heap[p.Obj.id] = &SliceV{Obj: o, Off: IntLit(0), Len: n, Elem: c.Elem, Nil: nl}
 		case *ByteSlV:
 			st.heap[p.Obj.id] = Fresh("hvbytes_"+al.Comment, SBytes)
 		case *TupleV, *CtxV, *StoreV, *FuncV, *OpaqueV, *IterV, *MapV, *MapIterV:
